@@ -1,6 +1,7 @@
 """C02 — WN-LMF load/dump is a lossless round trip in every supported version (structural agreement)."""
 from __future__ import annotations
 import ast
+from ..pat import Frag
 from ..src import norm, walk_no_nested, AnalysisError
 from ..consts import const, Unknown
 from ..pyutil import parents, binding_sites
@@ -212,7 +213,7 @@ def r2_model_reader(ctx, res):
                                         'truncated on load)')
     mp = ctx.repo.func('lmf', '_make_parser')
     key = 'reader:handlers-installed'
-    src = norm(mp.node)
+    src = Frag(mp.node)
     res.inst(key, lmf.loc(mp.node), 'Start/End/CharacterData handlers')
     for h in ('p.StartElementHandler = start', 'p.EndElementHandler = end', 'p.CharacterDataHandler = char_data'):
         if h not in src:
@@ -330,7 +331,7 @@ def r4_metadata_tables(ctx, res):
     key = 'xmlns-dc'
     d = ctx.repo.func('lmf', 'dump')
     res.inst(key, lmf.loc(d.node), 'xmlns:dc taken from _DC_URIS[version]')
-    src = norm(d.node)
+    src = Frag(d.node)
     if 'dc_uri = _DC_URIS[version]' not in src or 'xmlns:dc="{dc_uri}"' not in src.replace("'", '"'):
         res.find(key, lmf.loc(d.node), 'dump() no longer declares xmlns:dc with the URI the reader maps for that version')
 
@@ -430,7 +431,7 @@ def _is_const_lookup(v):
 def r6_header_constants(ctx, res):
     lmf = ctx.repo.mod('lmf')
     d = ctx.repo.func('lmf', 'dump')
-    src = norm(d.node)
+    src = Frag(d.node)
     for key, needle, why in (
             ('header:xmldecl', "print(_XMLDECL.decode('utf-8'), file=out)", 'the XML declaration _read_header compares against'),
             ('header:doctype', 'doctype = _DOCTYPE.format(schema=_SCHEMAS[version])', 'the DOCTYPE line _DOCTYPES is derived from'),
